@@ -32,6 +32,12 @@ func init() {
 					r = append(r, Oblig{Harness: "vh_C03_fold_typed", Globals: map[string]int{"vhKind": k, "vhOp": op}, Unroll: 80, MaxPaths: 2000})
 				}
 			}
+			// typed constants through the real compile pass (call site of the overflow check)
+			for _, k := range []int{3, 6, 8, 11} {
+				for op := 0; op <= 2; op++ {
+					r = append(r, Oblig{Harness: "vh_C03_cfg_typed", Globals: map[string]int{"vhKind": k, "vhOp": op}, Unroll: 80, MaxPaths: 2000})
+				}
+			}
 			// untyped operands under a typed context: add sub mul shl neg (indices 0,1,2,4,5 of vhTypedActs)
 			for _, k := range []int{2, 3, 6, 8, 11} {
 				for _, op := range []int{0, 1, 2, 4, 5} {
@@ -43,6 +49,6 @@ func init() {
 		Redirects: map[string]string{"(*" + interpPath + ".node).cfgErrorf": "vmCfgErrorf"},
 		Bounds:      []string{"integer constants of unbounded magnitude (SMT Int)", "all 11 integer kinds", "shift counts 0..64 (untyped) / 0..70 (typed)", "typed folding: all operand values of each of the 11 integer kinds", "strings: any ASCII string"},
 		Assumptions: []string{"go/constant modelled exactly on Int/String/Bool kinds; Float/Complex constants opaque", "reflect modelled on basic kinds (engine reflect model)", "typed folding: the harness repeats cfg.go's sequence fold-then-constOverflow; cfgErrorf replaced by a model (the message is not part of the property)"},
-		Outside:     []string{"float/complex representability and rounding", "iota and implicit repetition", "default types", "typed float constant overflow", "the call site of constOverflow in cfg.go", "bitwise operators on constants outside [0, 2^64)", "len of constant arrays"},
+		Outside:     []string{"float/complex representability and rounding", "iota and implicit repetition", "default types", "typed float constant overflow", "bitwise operators on constants outside [0, 2^64)", "len of constant arrays"},
 	}
 }
